@@ -157,3 +157,25 @@ def classify_nd(pid, info):
             except Exception:  # noqa: BLE001
                 pass
     return None
+
+
+@pred("KF05-numba-minmax-ignores-nan")
+def _kf05(case, impl_res, bad):
+    if case.get("engine") != "numba" or case.get("func") not in ("max", "min"):
+        return False
+    for g, got, want in bad:
+        mem = _group_members(case, g)
+        if not any(isinstance(v, float) and math.isnan(v) for v in mem):
+            return False
+    return True
+
+
+def probe_kf05(run):
+    """run the witness of KF05 so that the finding is reported (or noticed as gone) on every C01 run"""
+    if not active("KF05-numba-minmax-ignores-nan"):
+        return
+    import numpy as np
+    import flox
+    r = np.asarray(flox.groupby_reduce(np.array([1.0, np.nan, 3.0, 2.0]), np.array([0, 0, 1, 1]), func="max", engine="numba")[0])
+    if not np.isnan(r[0]):
+        run.known("KF05-numba-minmax-ignores-nan", describe("KF05-numba-minmax-ignores-nan"))
